@@ -91,7 +91,7 @@ static void DecodeAdr(tStrComp const* pArg, Byte Erl) {
 
     int     z;
     char*   p;
-    LongInt DispAcc, DispVal;
+    LargeInt DispAcc, DispVal;
     Byte    OccFlag, BaseReg;
     Boolean ok, fnd, NegFlag, NNegFlag, Unknown;
 
